@@ -341,6 +341,10 @@ def replay(task):
         if fs is not None and shared_root is None:
             shared_root = tempfile.mkdtemp(prefix="asmv-", dir=tmp_root())
         r = asm(srcs, fs=fs, timeout=to, listing=opts.get("check_syms", True), charset=charset, root=(shared_root if fs is not None else None))
+        if r["outcome"] == "hang" and not rec.get("cyc"):
+            # a hang nobody predicted is confirmed by a second run with twice the time before it is reported (an overloaded machine can
+            # starve a run; a genuine non-termination comes back)
+            r = asm(srcs, fs=fs, timeout=2 * to, listing=opts.get("check_syms", True), charset=charset, root=(shared_root if fs is not None else None))
         want_ok = bool(run["ok"]) and rec["own"] != "err"
         p = None
         if r["outcome"] in ("hang", "exception"):
